@@ -24,7 +24,16 @@ pub fn run(ctx: &Ctx, rec: &mut Rec) {
                 eng.push((r0, "engineered-r"));
             }
         }
+        // ... or to a rational expression of small depth in the constants of the curve (roots of the linear factors
+        // of the map's numerators and denominators, and what a transposed constant would single out)
+        for v in crate::zoo::constant_expressions(c) {
+            if let Some(r0) = f.sqrt(&f.mul(&v, &zi)) {
+                eng.push((r0, "engineered-r"));
+            }
+            eng.push((v, "constant-expression"));
+        }
         rec.declare_class("engineered-r");
+        rec.declare_class("constant-expression");
         inputs.extend(eng);
     }
     for cl in ["zero", "one", "p-1", "root-of-unity-2^k", "small-int", "random", "branch:square", "branch:nonsquare", "engineered-sqrt-exponent"] {
